@@ -7,6 +7,7 @@ import (
 	"os"
 	"strconv"
 	"strings"
+	"sync/atomic"
 	"testing"
 	"time"
 
@@ -400,3 +401,169 @@ func TestC16(t *testing.T) {
 }
 
 var _ = json.Marshal
+
+type c16WindowCase struct {
+	Monitors []monSpec `json:"monitors"`
+	Before   []string  `json:"foreignBeforeCut"`
+	ParkAt   int       `json:"parkAtRestartedMonitor"` // 1-based; 0 = no parking
+	Inside   []string  `json:"foreignInsideWindow"`
+	After    []string  `json:"foreignAfterRelease"`
+}
+
+// TestC16ReconnectWindow: the connection is cut, and while the reconnecting client sits
+// between the reply of one of its restarted monitors and the application of that reply
+// (pause point monitor:reply), other clients commit transactions. Their notifications
+// arrive on the new connection and must not be lost: after the release the cache
+// converges to the database.
+func TestC16ReconnectWindow(t *testing.T) {
+	w := c16World(t)
+	rapid.Check(t, func(t *rapid.T) {
+		sc := genC16Scenario(t)
+		kase := c16WindowCase{Monitors: sc.Monitors}
+		fail := func(class, format string, args ...interface{}) {
+			client.SetVerifHook(nil)
+			kit.Fail(t, "C16", class, kase, format, args...)
+		}
+		srv, err := kit.StartServer(w)
+		if err != nil {
+			t.Fatalf("server: %v", err)
+		}
+		defer srv.Close()
+		px, err := kit.StartProxy(srv.Sock)
+		if err != nil {
+			t.Fatalf("proxy: %v", err)
+		}
+		defer px.Close()
+		bg := context.Background()
+		direct, err := kit.NewClient(w, srv.Endpoint())
+		if err != nil {
+			t.Fatalf("client: %v", err)
+		}
+		if err := direct.Connect(bg); err != nil {
+			t.Fatalf("connect: %v", err)
+		}
+		defer direct.Close()
+		c, err := kit.NewClient(w, px.Endpoint(), client.WithReconnect(2*time.Second, backoff.NewConstantBackOff(3*time.Millisecond)))
+		if err != nil {
+			t.Fatalf("client: %v", err)
+		}
+		if err := c.Connect(bg); err != nil {
+			t.Fatalf("connect: %v", err)
+		}
+		defer c.Close()
+		defer client.SetVerifHook(nil)
+		for _, ms := range sc.Monitors {
+			ctx, cancel := context.WithTimeout(bg, 20*time.Second)
+			_, err := c.Monitor(ctx, buildMonitor(w, c, ms))
+			cancel()
+			if err != nil {
+				fail("monitor.error", "Monitor: %v", err)
+			}
+		}
+		fresh := 0
+		var rows []string
+		foreign := func(label string) string {
+			kind := rapid.SampledFrom([]string{"insert", "insert", "delete", "update"}).Draw(t, label)
+			var ops []kit.Op
+			switch {
+			case kind == "delete" && len(rows) > 0:
+				u := rows[0]
+				rows = rows[1:]
+				ops = []kit.Op{{Op: "delete", Table: "T0", Where: []kit.Cond{{Col: "_uuid", Fn: "==", Val: kit.Scalar(kit.UUID(u))}}}, {Op: "delete", Table: "T2", Where: []kit.Cond{}}}
+			case kind == "update" && len(rows) > 0:
+				ops = []kit.Op{{Op: "mutate", Table: "T0", Where: []kit.Cond{}, Mutations: []kit.Mut{{Col: "n", Mutator: "+=", Val: kit.Scalar(kit.Int(1))}, {Col: "tags", Mutator: "insert", Val: kit.SetOf(kit.Str(fmt.Sprintf("t%d", fresh)))}}},
+					{Op: "update", Table: "T1", Where: []kit.Cond{}, Row: kit.Row{"kv": kit.MapOf(kit.Str("k"), kit.Str(fmt.Sprintf("w%d", fresh)))}}}
+				fresh++
+			default:
+				kind = "insert"
+				fresh++
+				u := kit.MkUUID(5000 + fresh)
+				rows = append(rows, u)
+				ops = []kit.Op{{Op: "insert", Table: "T0", UUID: u, Row: kit.Row{"marker": kit.Scalar(kit.Str(fmt.Sprintf("foreign-%d", fresh))), "tags": kit.SetOf(kit.Str("a"))}},
+					{Op: "insert", Table: "T1", Row: kit.Row{"name": kit.Scalar(kit.Str(fmt.Sprintf("n%d", fresh))), "peer": kit.Scalar(kit.UUID(u))}},
+					{Op: "insert", Table: "T2", Row: kit.Row{"v": kit.Scalar(kit.Real(float64(fresh) + 0.5))}}}
+			}
+			ctx, cancel := context.WithTimeout(bg, 20*time.Second)
+			defer cancel()
+			res, err := kit.TransactOps(ctx, w, direct, ops)
+			if err != nil {
+				fail("harness.direct", "foreign transaction failed: %v", err)
+			}
+			for _, r := range res {
+				if r.Error != "" {
+					fail("harness.direct", "foreign transaction failed: %s %s", r.Error, r.Details)
+				}
+			}
+			return kind
+		}
+		for i, n := 0, rapid.IntRange(0, 3).Draw(t, "nbefore"); i < n; i++ {
+			kase.Before = append(kase.Before, foreign("before"))
+		}
+		kase.ParkAt = rapid.IntRange(0, len(sc.Monitors)).Draw(t, "parkat")
+		parked := make(chan struct{})
+		release := make(chan struct{})
+		var seen int32
+		client.SetVerifHook(func(cl client.Client, point string) {
+			if cl != c || point != "monitor:reply" {
+				return
+			}
+			if n := atomic.AddInt32(&seen, 1); int(n) == kase.ParkAt {
+				close(parked)
+				<-release
+			}
+		})
+		px.CutAll()
+		if kase.ParkAt > 0 {
+			select {
+			case <-parked:
+			case <-time.After(30 * time.Second):
+				close(release)
+				fail("reconnect.never", "30 s after the cut the client has not restarted monitor %d", kase.ParkAt)
+			}
+			for i, n := 0, rapid.IntRange(1, 3).Draw(t, "ninside"); i < n; i++ {
+				kase.Inside = append(kase.Inside, foreign("inside"))
+			}
+			close(release)
+		}
+		for i, n := 0, rapid.IntRange(0, 2).Draw(t, "nafter"); i < n; i++ {
+			kase.After = append(kase.After, foreign("after"))
+		}
+		if !waitConnected(c, 30*time.Second) {
+			fail("reconnect.never", "30 s after the cut the client does not report Connected()")
+		}
+		// convergence: barriers by the direct client until the cache equals the database
+		deadline := time.Now().Add(20 * time.Second)
+		var diffs []string
+		for {
+			diffs = nil
+			ctx, cancel := context.WithTimeout(bg, 20*time.Second)
+			_, err := kit.TransactOps(ctx, w, direct, []kit.Op{{Op: "insert", Table: "T2", Row: kit.Row{"v": kit.Scalar(kit.Real(-1))}}})
+			cancel()
+			if err != nil {
+				fail("harness.direct", "barrier: %v", err)
+			}
+			db, err := srv.Snapshot()
+			if err != nil {
+				t.Fatalf("snapshot: %v", err)
+			}
+			if c.Connected() && c.Cache() != nil {
+				for i, ms := range sc.Monitors {
+					for _, d := range compareMonitor(w, c, db, ms) {
+						diffs = append(diffs, fmt.Sprintf("monitor %d (%s): %s", i, ms.Method, d))
+					}
+				}
+			} else {
+				diffs = []string{"client not connected"}
+			}
+			if len(diffs) == 0 || time.Now().After(deadline) {
+				break
+			}
+			time.Sleep(10 * time.Millisecond)
+		}
+		if len(diffs) > 0 {
+			fail("resync.cache-differs", "transactions committed while restarted monitor %d of %d was between reply and application are missing from the cache 20 s later:\n%s", kase.ParkAt, len(sc.Monitors), strings.Join(diffs, "\n"))
+		}
+		kit.Record("C16", "window|"+string(kit.MustJSON(kase)), kase.ParkAt > 0, func() interface{} { return kase },
+			"reconnect-window", fmt.Sprintf("window:monitors:%d:parkat:%d", len(sc.Monitors), kase.ParkAt))
+	})
+}
